@@ -4,7 +4,7 @@ import PonyVerif.Model.SetCount
 /-
   Line-protocol entry for the SetData bookkeeping model (C10, `count ± added ∓ removed`).
   request : {"op":"run","cfg":{"m2m":b,"owning":b,"fixRemove":b,"fixFlush":b},"db":[ids],
-             "ops":[{"k":"seen"|"revAdd"|"revRemove"|"add"|"remove"|"contains"|"containsRev","x":id} | {"k":"loadAll"|"count"|"flush"}]}
+             "ops":[{"k":"seen"|"revAdd"|"revRemove"|"add"|"remove"|"contains"|"containsRev","x":id} | {"k":"loadAll"|"count"|"flush"|"nonzero"|"select"} | {"k":"isEmpty","probe":id|null}]}
             a request with "model":"session" is the request of Drive/C09 (the session model shared with C09) and is forwarded
   reply   : {"steps":[{"err":null|"assertion"|"phantom","ret":int|null,"valid":b,"safe":b,
                        "sd":{"items":[..],"fully":b,"count":int|null,"added":[..],"removed":[..],"absent":[..]},"db":[..],"spec":[..]}]}
@@ -23,6 +23,9 @@ def opOfJson (j : Json) : Except String Op := do
   | "remove" => pure (.remove (← argNat j "x"))
   | "contains" => pure (.contains (← argNat j "x"))
   | "containsRev" => pure (.containsRev (← argNat j "x"))
+  | "isEmpty" => pure (.isEmpty ((← argOptInt j "probe").map Int.toNat))
+  | "nonzero" => pure .nonzero
+  | "select" => pure .select
   | "loadAll" => pure .loadAll
   | "count" => pure .count
   | "flush" => pure .flush
